@@ -53,7 +53,7 @@ def plan(tier, seed):
 
 def finalize(agg, tier):
     r = []
-    for c in ("protect_calls", "values_extracted", "cek_recovered", "entropy_draws_logged"):
+    for c in ("protect_calls", "values_extracted", "cek_recovered", "entropy_draws_logged", "entropy_reports"):
         if agg.counter(c) == 0:
             r.append(f"monitor never reached: {c}")
     # cross-shard uniqueness by digest: every recorded value was registered as a distinct case
@@ -72,7 +72,21 @@ class Sets:
         self.pair: t.Dict[bytes, int] = {}
         self.info: t.Dict[bytes, int] = {}
         self.ct: t.Dict[bytes, int] = {}
+        self.bits: t.Dict[tuple, list] = {}
         self.n = 0
+
+    def entropy_report(self) -> None:
+        """Predictive monitor: bit positions that never varied over the shard's samples.  With >= 200 honest samples a
+        single constant bit has probability 2^-199; fewer than 64 varying bits make a collision a matter of < 2^32 calls."""
+        for (name, ln), (ones, anyone, n) in self.bits.items():
+            if n < 200:
+                continue
+            constant = (ones | (~anyone & ((1 << (8 * ln)) - 1)))
+            varying = 8 * ln - bin(constant).count("1")
+            self.rec.range(f"varying_bits[{name}/{ln}B]", varying)
+            self.rec.count("entropy_reports")
+            if varying < 64:
+                self.rec.violation(f"low-entropy-{name}", f"only {varying} of {8 * ln} bits of the {name} varied over {n} calls (constant-bit mask {constant:0{2 * ln}x}): values repeat within ~2^{varying // 2} calls", {"kind": "entropy", "name": name, "samples": n, "varying_bits": varying})
 
     def add(self, blob: bytes, root_keys, wit: dict) -> None:
         rec = self.rec
@@ -89,6 +103,15 @@ class Sets:
         rec.count("values_extracted")
         rec.count("cek_recovered")
         vals = dict(cek=parts["cek"], nonce=p["gcm_nonce"], pair=parts["cek"] + p["gcm_nonce"], info=parts["kid"]["key_info"], ct=p["enc_content"])
+        for name in ("cek", "nonce", "info"):
+            v = vals[name]
+            if name == "info" and parts["kid"]["flags"] & 1:
+                continue  # public-key structures have constant fields (magic, p, g): only nonce-mode key_info is a pure random string
+            acc = self.bits.setdefault((name, len(v)), [int.from_bytes(v, "big"), int.from_bytes(v, "big"), 0])
+            iv = int.from_bytes(v, "big")
+            acc[0] &= iv  # bits that were 1 in every sample
+            acc[1] |= iv  # bits that were 1 in some sample
+            acc[2] += 1
         for name, v in vals.items():
             table = getattr(self, name)
             if v in table:
@@ -155,10 +178,14 @@ def run_seq(spec, rec: Recorder):
                 for i in range(spec["n"]):
                     use_cache = cache if i % 2 else dpapi_ng.KeyCache()
                     rk_arg = rkid if i % 3 else None
+                    # different SIDs / DC positions give different peer public keys: an ephemeral key reused across peers shows as a repeated public value
+                    sid_i = "S-1-5-21-1-2-3-%d" % (1104 + (i % 5 if spec["name"] != "dc-seed" else 0))
+                    if i % 7 == 0:
+                        cfg.now = (361, (i // 7) % 32, (i // 3) % 32)
                     if i % 4 == 3:
-                        blob = loop.run_until_complete(dpapi_ng.async_ncrypt_protect_secret(b"same plaintext", "S-1-5-21-1-2-3-1104", root_key_identifier=rk_arg, cache=use_cache, **kw))
+                        blob = loop.run_until_complete(dpapi_ng.async_ncrypt_protect_secret(b"same plaintext", sid_i, root_key_identifier=rk_arg, cache=use_cache, **kw))
                     else:
-                        blob = dpapi_ng.ncrypt_protect_secret(b"same plaintext", "S-1-5-21-1-2-3-1104", root_key_identifier=rk_arg, cache=use_cache, **kw)
+                        blob = dpapi_ng.ncrypt_protect_secret(b"same plaintext", sid_i, root_key_identifier=rk_arg, cache=use_cache, **kw)
                     rec.count("protect_calls")
                     sets.add(blob, {rkid: rk}, {"shard": spec["name"], "call": i})
                 rec.count("entropy_draws_logged", ent.draws)
@@ -271,10 +298,25 @@ def run_async(spec, rec: Recorder):
         loop.close()
 
 
+_ALL_SETS: t.List[Sets] = []
+_orig_init = Sets.__init__
+
+
+def _tracking_init(self, rec):
+    _orig_init(self, rec)
+    _ALL_SETS.append(self)
+
+
+Sets.__init__ = _tracking_init
+
+
 def run_shard(spec, rec: Recorder):
     if not common.calibrate(rec, "crypto", "gkdi", "cms"):
         return
+    _ALL_SETS.clear()
     {"seq": run_seq, "threads": run_threads, "forks": run_forks, "async": run_async}[spec["kind"]](spec, rec)
+    for s_ in _ALL_SETS:
+        s_.entropy_report()
 
 
 def replay(body, rec: Recorder):
